@@ -34,8 +34,12 @@ class Finding:
         self.detail = detail or {}
         self.decl = decl
 
+    site = None
+
     @property
     def key(self):
+        if self.site is not None:
+            return f'{self.prop}|{self.rule}|site|{self.site}'
         return f'{self.prop}|{self.rule}|{self.decl_key}|{self.what}'
 
     def __repr__(self):
@@ -54,8 +58,11 @@ class Report:
         self.decls = set()
         self.bodies = set()
 
-    def ob(self, rule, ok, g, what, detail=None):
-        """one obligation; ok: True (discharged) | False (violated) | None (undecided)"""
+    def ob(self, rule, ok, g, what, detail=None, site=None):
+        """one obligation; ok: True (discharged) | False (violated) | None (undecided).
+        site: when the defect is a property of a generator template site rather than of one
+        declaration, the finding is keyed by that site (so one known finding covers every
+        declaration that instantiates the template, and nothing else)."""
         self.obligations += 1
         self.instances[rule] += 1
         if g is not None:
@@ -66,8 +73,11 @@ class Report:
         if ok is None:
             self.undecided.append({'rule': rule, 'decl': decl_key(g.d) if hasattr(g, 'd') else str(g), 'what': what, 'detail': detail})
             return None
-        self.findings.append(Finding(self.prop, rule, decl_key(g.d) if hasattr(g, 'd') else str(g), what, detail,
-                                     g.d if hasattr(g, 'd') else None))
+        f = Finding(self.prop, rule, decl_key(g.d) if hasattr(g, 'd') else str(g), what, detail,
+                    g.d if hasattr(g, 'd') else None)
+        if site is not None:
+            f.site = site
+        self.findings.append(f)
         return False
 
     def sample(self, s):
@@ -1477,3 +1487,199 @@ def check_no_bypass(rep, g):
             known = fn['name'] in ('try_new', 'new', 'new_unchecked', 'clone', 'default', 'arbitrary', 'try_from', 'from', 'from_str',
                                    'deserialize', 'visit_newtype_struct', 'make')
             rep.ob('R-API', known, g, f'fn `{fn["name"]}` producing T is a known entry point', {'path': fn['path']})
+
+
+# ----------------------------------------------------------------------------- C16 messages
+
+def decode_template(hexs):
+    """core::fmt::Arguments template bytes -> list of ('lit', text) | ('arg', index or None, has_flags)"""
+    b = bytes.fromhex(hexs)
+    i = 0
+    out = []
+    nxt = 0
+    while i < len(b):
+        x = b[i]
+        if x == 0:
+            break
+        if x < 0x80:
+            out.append(('lit', b[i + 1:i + 1 + x].decode('utf-8', 'replace')))
+            i += 1 + x
+        elif x == 0x80:
+            n = b[i + 1] | (b[i + 2] << 8)
+            out.append(('lit', b[i + 3:i + 3 + n].decode('utf-8', 'replace')))
+            i += 3 + n
+        elif x >= 0xC0:
+            i += 1
+            if x & 1:
+                i += 4
+            if x & 2:
+                i += 2
+            if x & 4:
+                i += 2
+            idx = None
+            if x & 8:
+                idx = b[i] | (b[i + 1] << 8)
+                i += 2
+            if idx is None:
+                idx = nxt
+            nxt = idx + 1
+            out.append(('arg', idx))
+        else:
+            out.append(('lit', '?'))
+            i += 1
+    return out
+
+
+def fmt_arguments(ex, t):
+    """from a term of type fmt::Arguments: (pieces, [argument value terms (formatter kind, value)])"""
+    t = strip_view(ex, t)
+    if t[0] != 'call':
+        return None
+    c = ex.callees.get(t[1])
+    if c is None:
+        return None
+    if c.name in ('from_str', 'from_str_nonconst', 'new_const') and len(t[2]) >= 1:
+        a = strip_view(ex, t[2][0])
+        if a[0] == 'str':
+            return [('lit', a[1])], []
+        return None
+    if c.name == 'new' and 'Arguments' in c.path and len(t[2]) == 2:
+        tb = strip_view(ex, t[2][0])
+        arr = strip_view(ex, t[2][1])
+        if tb[0] != 'bytes' or arr[0] != 'array':
+            return None
+        args = []
+        for a in arr[1]:
+            if a[0] == 'call' and len(a[2]) == 1:
+                args.append((cname(ex, a), strip_view(ex, a[2][0])))
+            else:
+                args.append(('?', a))
+        return decode_template(tb[1]), args
+    return None
+
+
+PHRASES = [
+    (r'greater\s+(than\s+)?or\s+equal(\s+to)?|at\s+least|not\s+less\s+than|no\s+less\s+than|not\s+fewer\s+than|no\s+fewer\s+than', {'Gt', 'Eq'}),
+    (r'less\s+(than\s+)?or\s+equal(\s+to)?|at\s+most|not\s+(greater|more|longer)\s+than|no\s+(greater|more|longer)\s+than', {'Lt', 'Eq'}),
+    (r'greater\s+than|more\s+than|longer\s+than|bigger\s+than|larger\s+than|above|exceed', {'Gt'}),
+    (r'less\s+than|fewer\s+than|shorter\s+than|smaller\s+than|below', {'Lt'}),
+]
+
+
+def stated_relation(text):
+    """the relation a message states, read literally; None if no relation phrase is recognised"""
+    low = text.lower()
+    for rx, rel in PHRASES:
+        m = re.search(rx, low)
+        if m:
+            return rel, m.group(0)
+    return None, None
+
+
+def check_messages(rep, g):
+    d = g.d
+    ex = g.ex
+    if d['custom'] or not d['validators'] or g.err_adt is None:
+        return
+    ea = g.err_adt
+    disp = [i for i in g.impls if i.get('trait', '').endswith('fmt::Display') and g.F.ty(i['self']).get('lid') == ea['lid']]
+    rep.ob('R-MSG', len(disp) == 1, g, 'the generated error enum implements Display', {})
+    if len(disp) != 1:
+        return
+    fn = g.impl_fn(disp[0], 'fmt')
+    if fn is None:
+        return
+    rep.bodies.add(fn['lid'])
+    outs = g.paths(fn)
+    # the accepting path of try_new gives, per validator, the enforced relation and bound
+    ctor = g.ctor()
+    oks = [o for o in g.paths(ctor) if o.kind == 'return' and is_ok(o.ret)] if ctor else []
+    if len(oks) != 1:
+        rep.ob('R-MSG', None, g, 'cannot relate messages to checks: try_new has no unique accepting path', {})
+        return
+    F = oks[0].ret[4][0][4][0]
+    checks = [norm_check(ex, c, v, F) for (c, v) in oks[0].conds]
+    nvar = len(ea['variants'])
+    by_variant = {}
+    for o in outs:
+        if o.kind != 'return':
+            continue
+        vidx = None
+        if nvar == 1 and not o.conds:
+            vidx = 0
+        for c, v in o.conds:
+            if c[0] == 'discr' and strip_view(ex, c[1]) == ('param', 1) or (c[0] == 'discr' and c[1] == ('deref', ('param', 1))):
+                if isinstance(v, int):
+                    vidx = v
+                elif isinstance(v, tuple) and v[0] == 'not':
+                    rest = [i for i in range(nvar) if i not in v[1]]
+                    if len(rest) == 1:
+                        vidx = rest[0]
+        if vidx is not None:
+            by_variant[vidx] = o
+    for i, v in enumerate(d['validators']):
+        k = v['kind']
+        what = f'message of {VARIANT[k]}'
+        o = by_variant.get(i)
+        if o is None:
+            rep.ob('R-MSG', False, g, f'{what}: no Display arm found for variant #{i}', {})
+            continue
+        ret = o.ret
+        fa = None
+        if ret[0] == 'call' and cname(ex, ret) in ('write_fmt', 'write_str') and len(ret[2]) == 2:
+            if cname(ex, ret) == 'write_str':
+                a = strip_view(ex, ret[2][1])
+                fa = ([('lit', a[1])], []) if a[0] == 'str' else None
+            else:
+                fa = fmt_arguments(ex, ret[2][1])
+        if fa is None:
+            rep.ob('R-MSG', None, g, f'{what}: Display arm is not a recognised write of format arguments', {'ret': show(ret)[:300]})
+            continue
+        pieces, args = fa
+        text = ''.join(p[1] if p[0] == 'lit' else '{%d}' % p[1] for p in pieces)
+        # the type name: literal in the template or a &str argument
+        names_type = d['name'] in text or any(a[1] == ('str', d['name']) for a in args)
+        rep.ob('R-MSG', names_type, g, f'{what}: names the newtype', {'text': text})
+        if k not in SIGMA_ACCEPT:
+            continue
+        chk = checks[i] if i < len(checks) else {'kind': 'unknown'}
+        if chk['kind'] != 'cmp':
+            rep.ob('R-MSG', None, g, f'{what}: the check for this variant was not recognised, nothing to compare with', {})
+            continue
+        # the bound: an argument whose value is the very bound term of the check
+        bound_named = any(a[1] == chk['bound'] for a in args)
+        if not bound_named and chk['bound'][0] == 'const' and chk['bound'][2] is not None:
+            # a literal bound may be rendered into the template text by the compiler
+            bv = const_value(chk['bound'])
+            bound_named = re.search(r'(?<![\w.])' + re.escape(repr(bv).rstrip('0').rstrip('.') if isinstance(bv, float) else str(bv)), text) is not None
+        rep.ob('R-MSG', bound_named, g, f'{what}: names the declared bound', {'text': text, 'args': [show(a[1]) for a in args], 'bound': show(chk['bound'])})
+        rel, phrase = stated_relation(text)
+        if rel is None:
+            rep.ob('R-MSG', None, g, f'{what}: no relation phrase recognised in the text', {'text': text})
+            continue
+        enforced = set(chk['accept']) - {'Un'}
+        rep.ob('R-MSG', rel == enforced, g,
+               f'{what}: the stated constraint ("{phrase}") admits exactly the values the validator `{k}` accepts',
+               {'text': text, 'stated': sorted(rel), 'enforced': sorted(enforced)},
+               site=f"{d['family']} {VARIANT[k]} message states {'/'.join(sorted(rel))} but the validator enforces {'/'.join(sorted(enforced))}")
+        rep.sample({'decl': decl_key(d), 'variant': VARIANT[k], 'text': text, 'stated': sorted(rel), 'enforced': sorted(enforced)})
+    # embedding: ParseError::Validate and serde errors show the validation error's own Display
+    pe = g.parse_err_adt
+    if pe is not None and g.has_validation():
+        pd = [i for i in g.impls if i.get('trait', '').endswith('fmt::Display') and g.F.ty(i['self']).get('lid') == pe['lid']]
+        for imp in pd:
+            f2 = g.impl_fn(imp, 'fmt')
+            if f2 is None:
+                continue
+            rep.bodies.add(f2['lid'])
+            ok = False
+            for o in g.paths(f2):
+                if o.kind != 'return' or o.ret[0] != 'call' or len(o.ret[2]) != 2:
+                    continue
+                fa = fmt_arguments(ex, o.ret[2][1])
+                if fa is None:
+                    continue
+                for (kind, val) in fa[1]:
+                    if kind == 'new_display' and val[0] == 'field' and val[1][0] == 'downcast' and val[1][3] == 'Validate':
+                        ok = True
+            rep.ob('R-MSG', ok, g, 'ParseError::Validate(e) is displayed through e\'s own Display', {})
